@@ -169,7 +169,12 @@ func (p prog) exec(t *f1testing.T, as []act) {
 				panic(fmt.Errorf("wrapped: %w", errors.New("inner")))
 			}
 		case 4:
-			switch a.how % 6 {
+			switch a.how % 7 {
+			case 6:
+				// a value whose own String method panics (a typed nil pointer): whatever handles the
+				// panic must not call it unguarded
+				var tm *time.Time
+				panic(tm)
 			case 4:
 				panic([]int{1, 2})
 			case 5:
